@@ -13,6 +13,8 @@ theorem also proves that the result is `some _`, i.e. no out-of-table read happe
 -/
 import CelerVerif.Lemmas.CalcExample
 import CelerVerif.Lemmas.CalcCont
+import CelerVerif.Lemmas.CalcMono
+import CelerVerif.Lemmas.CalcMsc
 
 namespace CelerVerif.Calc
 open CelerVerif
@@ -40,6 +42,18 @@ theorem uniform_find_in_range {α : Type} [Num α] (toIdx : α → ℕ) (g : UGr
   UGrid.find_lt toIdx g v h
 
 example : 2 ≤ (UGrid.fromBounds (0 : ℝ) 3 4).size := by simp [UGrid.fromBounds]
+
+/-- exact statement on the generic model (no real arithmetic): `find` (with its clamp) is
+    monotone in the value for every number type whose subtraction, division by a positive
+    number and index cast are monotone (`MonoNum`, Lemmas/CalcMono.lean: the comment there
+    lists the IEEE-754 facts — monotone rounding of the exact difference / quotient, monotone
+    truncation — that instantiate it at `Float`; they are hypotheses here, instantiated at ℝ) -/
+theorem uniform_find_monotone {α : Type} [Num α] {toIdx : α → ℕ} (M : MonoNum α toIdx)
+    (g : UGrid α) (hd : Num.lt (Num.ofNat 0) g.delta = true) (a b : α)
+    (hab : Num.le a b = true) : g.find toIdx a ≤ g.find toIdx b :=
+  UGrid.find_mono_of M g hd a b hab
+
+example : MonoNum ℝ floorIdx := monoNum_real
 
 /-- `from_bounds` puts the last grid point exactly on `back` (at ℝ) and the grid is increasing -/
 theorem uniform_grid_points (g : UGrid ℝ) (w : g.WF) :
@@ -285,6 +299,45 @@ theorem meanLoss_monotone_across_switch_fails :
     congr 1
     norm_num
 
+/-! ## GenericCalculator
+
+`d.X i` / `d.Y i` = i-th grid point / value, `d.WF` = `GenericGridRecord::operator bool` + item
+ranges inside `reals` + strictly increasing x grid (any size); `d.inverse` = `make_inverse()` /
+`from_inverse` (x and y flipped), which needs strictly increasing values (`d.YIncr`). -/
+
+/-- the table is reproduced at every grid point -/
+theorem generic_at_knots (d : GenGrid ℝ) (w : d.WF) (i : ℕ) (hi : i < d.size) :
+    d.calc (d.X i) = some (d.Y i) :=
+  w.calc_knot hi
+
+example : exGen.WF ∧ 1 < exGen.size := ⟨exGen_WF, by simp [exGen]⟩
+
+/-- inside the grid the value lies between the two neighbouring tabulated values -/
+theorem generic_between_neighbours (d : GenGrid ℝ) (w : d.WF) (x : ℝ) (h1 : d.X 0 < x)
+    (h2 : x < d.X (d.size - 1)) :
+    ∃ k v, k + 1 < d.size ∧ d.X k ≤ x ∧ x < d.X (k + 1) ∧ d.calc x = some v ∧
+      min (d.Y k) (d.Y (k + 1)) ≤ v ∧ v ≤ max (d.Y k) (d.Y (k + 1)) := by
+  obtain ⟨k, hk, hb1, hb2, hc⟩ := w.calc_bin h1 h2
+  exact ⟨k, _, hk, hb1, hb2, hc,
+    lerp_between _ _ _ _ _ (w.xincr k hk) hb1 (le_of_lt hb2)⟩
+
+example : exGen.X 0 < 3 ∧ (3 : ℝ) < exGen.X (exGen.size - 1) := by
+  constructor <;> simp [GenGrid.X, exGen] <;> norm_num
+
+/-- outside the grid the end values are extrapolated as constants -/
+theorem generic_extrapolation (d : GenGrid ℝ) (w : d.WF) (x : ℝ) :
+    (x ≤ d.X 0 → d.calc x = some (d.Y 0)) ∧
+    (d.X (d.size - 1) ≤ x → d.calc x = some (d.Y (d.size - 1))) :=
+  ⟨w.calc_below, w.calc_above⟩
+
+/-- ★ `make_inverse()` ∘ calc = id on the whole grid, for strictly increasing values -/
+theorem generic_inverse_calc (d : GenGrid ℝ) (w : d.WF) (hy : d.YIncr) (x : ℝ) (h1 : d.X 0 ≤ x)
+    (h2 : x ≤ d.X (d.size - 1)) :
+    ∃ v, d.calc x = some v ∧ d.inverse.calc v = some x :=
+  w.inverse_calc hy h1 h2
+
+example : exGen.WF ∧ exGen.YIncr := ⟨exGen_WF, exGen_YIncr⟩
+
 /-! ## range_to_step -/
 
 /-- `range_to_step`: a positive step that never exceeds the range (`CELER_ENSURE` of the code),
@@ -345,5 +398,67 @@ theorem fromGeo_between (log1p : ℝ → ℝ) (trueStep alpha range lam g : ℝ)
     g ≤ mscStepFromGeo log1p trueStep alpha range lam g
       ∧ mscStepFromGeo log1p trueStep alpha range lam g ≤ trueStep :=
   mscStepFromGeo_between log1p trueStep alpha range lam g h
+
+/-- ★ every exit of `MscStepToGeo::operator()` — tiny step, constant cross section, the
+    range-limited / low-energy form of Eq. 8.10 and the general Eq. 8.10 with the end-point
+    energy from the inverse range and the MSC cross-section table — is defined (no
+    out-of-table read) and gives `0 ≤ geom ≤ true` -/
+theorem geom_nonneg (expm1 : ℝ → ℝ) (hex : ∀ x, expm1 x = Real.exp x - 1)
+    (rng mxs : XsGrid ℝ) (wr : rng.WF) (hpr : rng.Pos) (hir : rng.Incr) (wm : mxs.WF)
+    (hpm : mxs.Pos) (emass E lam range t : ℝ) (hlam : 0 < lam) (hrange : 0 < range)
+    (ht0 : 0 ≤ t) (ht : t ≤ range) :
+    ∃ res, mscStepToGeo floorIdx expm1 rng mxs emass E lam range t = some res ∧
+      0 ≤ res.step ∧ res.step ≤ t :=
+  mscStepToGeo_nonneg expm1 hex rng mxs wr hpr hir wm hpm emass E lam range t hlam hrange ht0 ht
+
+example : (exGrid noScaling).WF ∧ (exGrid noScaling).Incr ∧ (exGrid 1).WF ∧ (exGrid 1).Pos :=
+  ⟨exGrid_WF _, exGrid_Incr _, exGrid_WF _, exGrid_Pos _⟩
+
+/-- closed form of Eq. 8.10 (`geoFromSlope`) for a positive MFP slope `s`:
+    `(1 − s^w)/(α w)`, `w = 1 + 1/(α λ)`; and its sign: non-negative whenever `α` and `log s`
+    have opposite signs (which is the case on both Eq. 8.10 exits) -/
+theorem geom_eq8_10 (lam alpha s : ℝ) (hs : 0 < s) :
+    geoFromSlope lam alpha s
+        = (1 - s ^ (1 + 1 / (alpha * lam))) / (alpha * (1 + 1 / (alpha * lam))) ∧
+      (alpha * Real.log s ≤ 0 → 0 ≤ geoFromSlope lam alpha s) :=
+  ⟨geoFromSlope_rpow lam alpha s hs, geoFromSlope_nonneg lam alpha s⟩
+
+/-- the range-limited / low-energy exit in closed form for `t < range`:
+    `alpha = 1/range`, `geom = (1 − (1 − t/range)^(1 + range/λ)) / ((1/range)(1 + range/λ))`,
+    the final `min(·, t)` being inert (Bernoulli's inequality).  At `t = range` the ℝ reading of
+    `fastpow(0, w) = exp(w·log 0)` differs from IEEE (`log 0 = −∞`), hence `t < range`. -/
+theorem geom_low_energy (expm1 : ℝ → ℝ) (rng mxs : XsGrid ℝ) (emass E lam range t : ℝ)
+    (hlam : 0 < lam) (hrange : 0 < range) (hmin : mscMinStep ≤ t)
+    (hbig : range * mscDtrl ≤ t) (ht : t < range) (hE : E < emass) :
+    mscStepToGeo floorIdx expm1 rng mxs emass E lam range t
+      = some ⟨(1 - (1 - t / range) ^ (1 + range / lam)) / (1 / range * (1 + range / lam)),
+              1 / range⟩ :=
+  mscStepToGeo_lowEnergy expm1 rng mxs emass E lam range t hlam hrange hmin hbig ht hE
+
+/-- ★ the round trip as ONE statement over the case split the code makes: whichever exit
+    `MscStepToGeo` takes, feeding its geometrical path and its `alpha` back into
+    `MscStepFromGeo` returns a true path between that geometrical path and the original one -/
+theorem msc_roundtrip_between (expm1 log1p : ℝ → ℝ) (rng mxs : XsGrid ℝ)
+    (emass E lam range t : ℝ) (res : GeoResult ℝ)
+    (h : mscStepToGeo floorIdx expm1 rng mxs emass E lam range t = some res) :
+    res.step ≤ mscStepFromGeo log1p t res.alpha range lam res.step ∧
+      mscStepFromGeo log1p t res.alpha range lam res.step ≤ t :=
+  Calc.msc_roundtrip_between' expm1 log1p rng mxs emass E lam range t res h
+
+/-- … and it is exact (returns the original true path) on the small-step exit and on the
+    range-limited / low-energy exit, provided the geometrical path is not below `min_step`
+    (below it `MscStepFromGeo` returns the geometrical path unchanged) -/
+theorem msc_roundtrip_exact (log1p : ℝ → ℝ) (hl : ∀ x, log1p x = Real.log (1 + x))
+    (lam range t : ℝ) (hlam : 0 < lam) (hrange : 0 < range) (ht0 : 0 ≤ t) (ht : t < range) :
+    (mscMinStep ≤ lam * (1 - Real.exp (-t / lam)) →
+      mscStepFromGeo log1p t 0 range lam (lam * (1 - Real.exp (-t / lam))) = t) ∧
+    (mscMinStep ≤ geoFromSlope lam (1 / range) (1 - 1 / range * t) →
+      mscStepFromGeo log1p t (1 / range) range lam
+        (geoFromSlope lam (1 / range) (1 - 1 / range * t)) = t) :=
+  ⟨msc_roundtrip_small log1p hl lam range t hlam,
+   msc_roundtrip_lowEnergy log1p lam range t hlam hrange ht0 ht⟩
+
+example : ∃ log1p : ℝ → ℝ, ∀ x, log1p x = Real.log (1 + x) :=
+  ⟨fun x => Real.log (1 + x), fun _ => rfl⟩
 
 end CelerVerif.Calc
